@@ -321,4 +321,32 @@ def connect (C : Crypto) (t : Transport) (cr : Creds) (cl : Client) (r : Reply) 
     { result := .ok (), keys := some (outKey, inKey),
       trace := tr ++ [.hkdf p.1 p.2.1 shared, .hkdf p.1 p.2.2 shared, .enable outKey inKey] }
 
+/-! ## credential selection in front of AirPlay's verify procedure
+
+`pyatv/protocols/airplay/auth/__init__.py:extract_credentials` (callers: airplay `setup()` for the
+remote-control session, RAOP `stream_file`): credentials STORED for the service win; only when none
+are stored do the advertised feature bits (SupportsSystemPairing, SupportsCoreUtilsPairingAndEncryption —
+unauthenticated mDNS data) select transient pairing; `pair_verify` then picks the procedure by the
+type of the selected credentials. -/
+
+/-- what `parse_credentials(service.credentials)` yields, by `HapCredentials.type` -/
+inductive Stored
+  | none
+  | hap (cr : Creds)
+  | legacy
+  | transient
+
+inductive Selected
+  | null
+  | transient
+  | legacy
+  | hap (cr : Creds)
+
+def extractCredentials (stored : Stored) (advertisesPairing : Bool) : Selected :=
+  match stored with
+  | .hap cr => .hap cr
+  | .legacy => .legacy
+  | .transient => .transient
+  | .none => if advertisesPairing then .transient else .null
+
 end PyatvModel.C06
